@@ -613,8 +613,14 @@ def gen_c08(rng, quick=True):
             kwargs = {"method": m, "num_attempts": rng.randint(1, 3), "num_samples": 10,
                       "maximum_symmetry": rng.choice([0.5, 0.5, 0.2, 0.05]),
                       "rbf_type": rng.choice(["gaussian", "c2-matern", "cauchy"])}
-            if rng.random() < 0.3:
+            r_ = rng.random()
+            if r_ < 0.3:
                 cdc = LADDERS[4]  # inductive loop: attempts are rejected by the symmetry filter more often
+            elif r_ < 0.55:
+                cdc = "R{R=25}L{L=2e-6}(R{R=80}C{C=4e-6})"  # inductive high-frequency tail
+            if rng.random() < 0.5:
+                # documented in calculate_drt_bht's docstring (the signature takes it through **kwargs)
+                kwargs["inductance"] = rng.random() < 0.5
             stochastic = True
         else:
             fam = rng.choice(["R(RC)", "R(RQ)"])
